@@ -69,6 +69,7 @@ structure DExt where
 abbrev DChain := Chain DExt
 
 def realOf (syms : List (String × String)) (sym : String) : String :=
+  if sym == "%empty" then "" else   -- the account whose address is the empty string (`Addr::unchecked("")`)
   (syms.lookup sym).getD sym
 
 def isBound (syms : List (String × String)) (s : String) : Bool := syms.any (·.2 == s)
